@@ -583,3 +583,5 @@ func mustJSON(v any) string {
 func TestPropSequence(t *testing.T) { hx.Check(t, 60000, genCase, runCase) }
 
 func TestReplay(t *testing.T) { hx.Replay(t, "TestPropSequence", 3, runCase) }
+
+func FuzzSequence(f *testing.F) { hx.Fuzz(f, genCase, runCase) }
